@@ -26,7 +26,7 @@ PERMS = {1: [(0,)], 2: [(0, 1), (1, 0)],
 
 def _graph(n, s0, d0, h0, s1, d1, h1, s2, d2, h2, v0, v1, v2, nsrc, ndst):
   edges = GR.pick_edges(n, [(s0, d0, h0), (s1, d1, h1), (s2, d2, h2)], nsrc, ndst)
-  o = GR.build(edges, v0, v1, v2, table=True)
+  o = GR.build(edges, v0, v1, v2, table=True, record=True)
   return o
 
 
